@@ -1,6 +1,6 @@
 #!/bin/bash
 # Apply a seeded change to /repo, run the given checks against it, undo. usage: seed_run.sh <dir with patch.diff> <tier> <ID>...
-# prints one line per check: <ID> rc=<rc> <first VIOLATION signature lines>
+# prints one line per check: <ID> rc=<rc> <first VIOLATION signature lines>; results are appended to <dir>/runs.jsonl
 set -u
 D=$(readlink -f "$1"); tier=$2; shift 2
 cd /verif
@@ -8,9 +8,10 @@ if [ -n "$(git -C /repo status --porcelain --untracked-files=no)" ]; then echo "
 git -C /repo apply "$D/patch.diff" || { echo "patch does not apply"; exit 2; }
 trap 'git -C /repo checkout -- .' EXIT
 for id in "$@"; do
-  rm -rf /verif/replays/$id.seedrun; [ -d /verif/replays/$id ] && mv /verif/replays/$id /verif/replays/$id.seedrun.keep
-  out=$(VERIF_SEED=${VERIF_SEED:-$RANDOM} ./check $id $tier 2>&1); rc=$?
-  echo "$id rc=$rc $(echo "$out" | grep -E '^  signature' | head -4 | tr '\n' ';' | cut -c1-400)"
-  echo "$out" | grep -E "^$id (quick|thorough)" | cut -c1-200
+  [ -d /verif/replays/$id ] && mv /verif/replays/$id /verif/replays/$id.seedrun.keep
+  tmp=$(mktemp); VERIF_SEED=${VERIF_SEED:-$RANDOM} ./check $id $tier >"$tmp" 2>&1; rc=$?
+  echo "$id rc=$rc $(grep -E '^  signature' "$tmp" | head -4 | tr '\n' ';' | cut -c1-400)"
+  grep -E "^$id (quick|thorough)" "$tmp" | cut -c1-200
+  python3 tools/seed_record.py "$D" "$id" "$tier" "$rc" "$tmp"; rm -f "$tmp"
   rm -rf /verif/replays/$id; [ -d /verif/replays/$id.seedrun.keep ] && mv /verif/replays/$id.seedrun.keep /verif/replays/$id
 done
